@@ -48,6 +48,15 @@ type Options struct {
 	PreemptKinds []string
 	// NoEarlyTimers: timers fire only when no thread is enabled.
 	NoEarlyTimers bool
+	// StateKey, when set, must return a canonical description of all state
+	// outside the scheduler (code-under-test objects, harness variables)
+	// that determines future behaviour and the oracle.  Together with the
+	// scheduler's own state it is used for visited-state pruning.
+	StateKey func() string
+	// KeySteps adds every thread's own step count to the state key (a
+	// program-counter proxy for straight-line thread bodies whose position
+	// the harness key does not already determine).
+	KeySteps bool
 }
 
 // Thread is one scheduled goroutine.
@@ -367,6 +376,9 @@ func (s *Sched) schedule(t *Thread, alive bool) {
 					costs[i] = 1
 				}
 			}
+			if s.opt.StateKey != nil {
+				s.C.Prune(s.stateKey(t, alive))
+			}
 			choice = s.C.ChooseCost("sched", costs)
 			if s.C.Logging() {
 				var names []string
@@ -394,6 +406,42 @@ func (s *Sched) schedule(t *Thread, alive bool) {
 		}
 		return
 	}
+}
+
+// stateKey is the scheduler's part of the global state: who decides, where
+// every thread is parked (description + number of its own steps, a program
+// counter proxy for deterministic thread bodies), pending rendezvous results,
+// channel contents and armed timers.
+func (s *Sched) stateKey(t *Thread, alive bool) string {
+	var sb strings.Builder
+	fmt.Fprintf(&sb, "cur=%d/%v|", t.ID, alive)
+	for _, u := range s.threads {
+		steps := 0
+		if s.opt.KeySteps {
+			steps = u.Steps
+		}
+		fmt.Fprintf(&sb, "T%d:%v,%v,%s,%d,%d,%v;", u.ID, u.started, u.exited, u.desc, steps, u.fired, u.rv)
+	}
+	// FIFO order of pending channel operations decides rendezvous partners
+	pend := []*Thread{}
+	for _, u := range s.threads {
+		if !u.exited && u.cases != nil && u.fired < 0 {
+			pend = append(pend, u)
+		}
+	}
+	sort.Slice(pend, func(i, j int) bool { return pend[i].arrival < pend[j].arrival })
+	for _, u := range pend {
+		fmt.Fprintf(&sb, "p%d,", u.ID)
+	}
+	sb.WriteString(s.chanKey())
+	for _, tm := range s.timers {
+		if !tm.dead {
+			fmt.Fprintf(&sb, "tm+%d;", tm.at.Sub(s.now))
+		}
+	}
+	sb.WriteString("|")
+	sb.WriteString(s.opt.StateKey())
+	return sb.String()
 }
 
 func (s *Sched) threadExit(t *Thread) {
